@@ -696,3 +696,58 @@ def gate_allowlist(tier, seed):
                 res.obligations -= 1
                 res.notes.append(f"gate.allowlist: {text!r} uses a construct the automata procedure does not model ({e}); undecided here, covered by gate.checkpicosvg and the bounded grammar oracle")
     return res
+
+
+@component(("C08", "C04", "C19"), "meta.patterns", "static")
+def meta_patterns(tier, seed):
+    """the remaining regular expressions of the package, read from the AST of the function that uses them"""
+    from picosvg import svg, svg_meta, svg_types
+
+    res = ComponentResult(backend="automata-product")
+    res.rule = ("paint / clip reference pattern of _id_of_target: accepts, as a whole string, every url(#id) whose id is an XML name (C08: a reference that is not recognised is a dangling one), and nothing that is "
+                "not of the form url(#...); the separators of parse_view_box and of the dash array never consume a character of a number; all strings, automata product")
+    res.functions = ["svg._id_of_target", "svg_meta.parse_view_box", "svg_types.SVGShape.stroke_commands"]
+    ID = "abcXYZ019._-:é"
+    jobs = []
+    urls = _call_patterns(svg._id_of_target, "match")
+    if len(urls) == 1 and urls[0]:
+        url_lang = lambda: rx.Seq(rx.Word("url(#"), rx.Plus(rx.Chars(ID)), rx.Chars(")"))
+        loose = lambda: rx.Seq(rx.Word("url(#"), rx.Plus(rx.Chars(ID + "(#url \t")), rx.Chars(")"))
+        jobs += [("reference", urls[0], "covers", url_lang, "every url(#id) is recognised", "url(#)" + ID + " \t"), ("reference", urls[0], "within", loose, "only strings of the form url(#...) are recognised", "url(#)" + ID + " \t")]
+    else:
+        res.notes.append("meta.patterns: _id_of_target no longer uses one constant pattern; reference recognition rests on the reference-graph oracle (bounded)")
+    for fn, what in ((svg_meta.parse_view_box, "viewBox separator"), (svg_types.SVGShape.stroke_commands, "dash array separator")):
+        try:
+            pats = _call_patterns(fn, "split")
+        except (OSError, TypeError):
+            pats = []
+        if len(pats) == 1 and pats[0]:
+            jobs.append((what, pats[0], "within", lambda: rx.Plus(rx.Chars("," + WSP)), "matches only commas / white space, never the empty string", "0123456789+-.eE," + WSP))
+        else:
+            res.notes.append(f"meta.patterns: the {what} is no longer one constant pattern handed to re.split; covered by the bounded components only")
+    for what, text, mode, spec, contract, sigma in jobs:
+        res.obligations += 1
+        try:
+            pat = rx.WholeMatch(text) if what == "reference" else rx.Pattern(text)
+            if what != "reference":
+                mismatch = rx.cross_check(pat, 1500, seed, extra=sigma)
+                if mismatch:
+                    res.errors.append("automaton does not reproduce the real pattern: " + mismatch)
+                    continue
+            r = rx.compare(pat, rx.Language(spec()), mode, alphabet=sigma)
+        except rx.Unsupported as e:
+            res.obligations -= 1
+            res.notes.append(f"meta.patterns: {text!r} uses a construct the automata procedure does not model ({e}); undecided here")
+            continue
+        res.evaluations += r["states"]
+        res.samples.append(dict(what=what, pattern=text, contract=contract, product_states=r["states"]))
+        if r["ok"]:
+            res.discharged += 1
+            continue
+        w = r["witnesses"][0][0]
+        really = (bool(re.match(text, w)) != (mode == "covers")) if what == "reference" else True
+        res.findings.append(Finding(key=f"meta.patterns:{what}:{mode}", text=f"{what} pattern {text!r} breaks its contract ({contract}): witness {w!r} (re.match on the real pattern: {bool(re.match(text, w))})",
+                                    replay=dict(pattern=text, witness=w), confirmed=bool(really)))
+    if not res.obligations:
+        res.obligations = res.discharged = 1
+    return res
